@@ -5,7 +5,9 @@ Real threads, exactly one runnable at a time. Every 'call', 'line' and
 which the running thread itself decides (from the replayed prefix, default:
 keep running) who runs next; a hand-off happens only on an actual switch.
 C code between two events is atomic, which is what the GIL guarantees for
-code that does not call back into the interpreter.
+code that does not call back into the interpreter.  Locks of the library are
+replaced by SchedLock objects (adopt_locks): a thread waiting for one is not
+enabled; an execution that does not end is reported (Hang), never waited for.
 
 Exploration is depth-first over choice sequences with a preemption bound
 (switching away from a thread that could have continued costs 1).
@@ -22,6 +24,105 @@ class ReplayDivergence(Exception):
 # read-modify-write such as ``self._generation += 1`` is one line but several
 # interruptible instructions)
 OPCODE_FUNCS = set()
+HANG_SECONDS = 120
+
+
+class Deadlock(Exception):
+    """Every live thread waits for a lock another live thread holds."""
+
+
+class Hang(Exception):
+    """An execution did not finish: a thread blocks on something the
+    scheduler does not control (a real lock, a condition, I/O)."""
+
+
+CURRENT = [None]            # the Run that is executing, if any
+_TLS = threading.local()    # .tid = index of the scheduled thread
+
+
+class SchedLock:
+    """Stand-in for threading.Lock / threading.RLock inside the library while
+    it runs under the scheduler: a thread that finds the lock taken is not
+    *enabled* until the owner releases it, instead of blocking for real (which
+    would stop the one thread that is allowed to run). Outside a scheduled
+    run (worlds are built and inspected by a single thread; the free-running
+    supplementary pass uses unscheduled threads) it is a real lock."""
+
+    def __init__(self, reentrant=True):
+        self.reentrant = reentrant
+        self.owner = None
+        self.count = 0
+        self._real = threading.RLock() if reentrant else threading.Lock()
+
+    def _me(self):
+        run = CURRENT[0]
+        tid = getattr(_TLS, 'tid', None)
+        return (run, tid) if run is not None and tid is not None else (None, 'main')
+
+    def acquire(self, blocking=True, timeout=-1):
+        run, tid = self._me()
+        if run is None:
+            return self._real.acquire(blocking, timeout)
+        if self.owner == tid and self.reentrant:
+            self.count += 1
+            return True
+        while self.owner is not None:
+            if not blocking:
+                return False
+            run.wait_for(tid, self)
+        self.owner = tid
+        self.count = 1
+        return True
+
+    def release(self):
+        if self._me()[0] is None:
+            return self._real.release()
+        if self.count <= 0:
+            raise RuntimeError('release of an unlocked lock')
+        self.count -= 1
+        if self.count == 0:
+            self.owner = None
+
+    __enter__ = acquire
+
+    def __exit__(self, *a):
+        self.release()
+
+    def locked(self):
+        return self.owner is not None
+
+
+class _ThreadingShim:
+    """What the library sees as the ``threading`` module while it is checked
+    under the scheduler: locks are SchedLocks, everything else is real."""
+
+    def __init__(self, real):
+        self._real = real
+
+    def Lock(self):
+        return SchedLock(reentrant=False)
+
+    def RLock(self):
+        return SchedLock(reentrant=True)
+
+    def __getattr__(self, name):
+        return getattr(self._real, name)
+
+
+def adopt_locks(*modules):
+    """Replace the locks the given (already imported) library modules hold as
+    module globals, and the ``threading`` module they would create further
+    locks with. Returns the names replaced (for the evidence)."""
+    real_kinds = (type(threading.Lock()), type(threading.RLock()))
+    done = []
+    for mod in modules:
+        for name, val in list(vars(mod).items()):
+            if isinstance(val, real_kinds):
+                setattr(mod, name, SchedLock(reentrant=isinstance(val, real_kinds[1])))
+                done.append('%s.%s' % (mod.__name__, name))
+            elif val is threading:
+                setattr(mod, name, _ThreadingShim(threading))
+    return done
 
 
 class Run:
@@ -39,12 +140,30 @@ class Run:
         self.errors = [None] * self.n
         self.results = [None] * self.n
         self.diverged = None
+        self.waiting = [None] * self.n     # the SchedLock a thread is waiting for
+        self.lock_waits = 0
+
+    def _enabled(self, i):
+        return self.alive[i] and (self.waiting[i] is None or self.waiting[i].owner is None)
+
+    def wait_for(self, tid, lock):
+        """Called by SchedLock.acquire in thread *tid*: not enabled until the
+        owner releases the lock; someone else runs meanwhile."""
+        self.waiting[tid] = lock
+        self.lock_waits += 1
+        try:
+            if not any(self._enabled(i) for i in range(self.n)):
+                raise Deadlock('thread %d waits for a lock held by thread %r and nobody can run'
+                               % (tid, lock.owner))
+            self._point(tid)
+        finally:
+            self.waiting[tid] = None
 
     def _pick(self, cur):
-        enabled = [i for i in range(self.n) if self.alive[i]]
+        enabled = [i for i in range(self.n) if self._enabled(i)]
         if not enabled:
             return None
-        cur_en = cur is not None and self.alive[cur]
+        cur_en = cur is not None and self._enabled(cur)
         if cur_en:
             enabled = [cur] + [i for i in enabled if i != cur]
         k = len(self.choices)
@@ -81,6 +200,7 @@ class Run:
         return glob
 
     def _worker(self, tid):
+        _TLS.tid = tid
         self.sem[tid].acquire()
         self.order.append((tid, 'start'))
         sys.settrace(self._trace(tid))
@@ -94,6 +214,9 @@ class Run:
             self.alive[tid] = False
             nxt = self._pick(tid)
             if nxt is None:
+                # nobody can run: everybody finished, or the rest waits for a
+                # lock this thread died holding
+                self.stuck = [i for i in range(self.n) if self.alive[i]]
                 self.done_evt.release()
             else:
                 self.sem[nxt].release()
@@ -103,11 +226,20 @@ class Run:
                for i in range(self.n)]
         for t in ths:
             t.start()
-        first = self._pick(None)
-        self.sem[first].release()
-        self.done_evt.acquire()
-        for t in ths:
-            t.join()
+        self.stuck = []
+        CURRENT[0] = self
+        try:
+            first = self._pick(None)
+            self.sem[first].release()
+            if not self.done_evt.acquire(timeout=HANG_SECONDS):
+                raise Hang('an execution did not finish within %d s (schedule so far: %r)'
+                           % (HANG_SECONDS, self.choices[:200]))
+            if self.stuck:
+                raise Deadlock('threads %r wait for a lock whose owner ended' % (self.stuck,))
+            for t in ths:
+                t.join()
+        finally:
+            CURRENT[0] = None
         if self.diverged:
             raise ReplayDivergence('replayed prefix diverged at point %d: choice %d of %d'
                                    % self.diverged)
@@ -119,7 +251,7 @@ def explore(make, watch, bound, check, journal=None, max_schedules=None, shard=N
     """make() -> (bodies, ctx); check(run, ctx) -> (outcome label, violation or None).
     Returns stats; stops at the first violation."""
     st = {'schedules': 0, 'maxpoints': 0, 'outcomes': {}, 'violation': None,
-          'capped': False, 'violations': []}
+          'capped': False, 'violations': [], 'lock_waits': 0}
     stack = [list(p) for p in stack0] if stack0 is not None else [[]]
     seen_kinds = set()
     st['children'] = []
@@ -135,6 +267,7 @@ def explore(make, watch, bound, check, journal=None, max_schedules=None, shard=N
         if mine:
             st['schedules'] += 1
             st['maxpoints'] = max(st['maxpoints'], len(x.points))
+            st['lock_waits'] += 1 if x.lock_waits else 0
         outcome, viol = check(x, ctx)
         if mine:
             st['outcomes'][outcome] = st['outcomes'].get(outcome, 0) + 1
